@@ -7,10 +7,10 @@ MINE = {"dist", "dist_norm", "dist_backend_mismatch", "read_raised"}
 
 
 def run(tier):
-    chk = ec.run_reads(PID, tier, {"sdist"}, MINE, ["DistNorm"],
+    chk = ec.run_reads(PID, tier, {"sdist"}, MINE, ["DistNorm", "SlosEqualsPermanent"],
                        "cases = construction programs of LwCircuit ending in Sampler(...).probability_distribution for every input with <= MaxPhot "
-                       "photons, for BOTH back-ends; TLC computes the exact loss-marginalised distribution (invariant DistNorm: non-negative, sums "
-                       "to one), the real distributions are compared entry by entry and with each other. non-trivial = at least one construction "
+                       "photons, for BOTH back-ends; TLC computes the exact loss-marginalised distribution (invariants DistNorm: non-negative, sums "
+                       "to one; SlosEqualsPermanent: the SLOS layer-by-layer transition system equals the permanent formula), the real distributions are compared entry by entry and with each other. non-trivial = at least one construction "
                        "call before the read; distinct = distinct call sequences", nsim=1200)
     return chk.finish()
 
